@@ -175,9 +175,38 @@ def _ndjson_tables() -> list[str]:
     return ["(* response_handler_generator._is_ndjson_stream *)", f"Definition s_fmt_ndjson : list N := {cstr(fmts.pop())}."]
 
 
+def _raw_body_tables() -> list[str]:
+    """_raw_body_accessor(content_types, python_type): python types it applies to; text prefix; binary media (3rd copy)"""
+    mod = _parse("visit/endpoint/generators/response_handler_generator.py")
+    fn = _find_func(_find_class(mod, "EndpointResponseHandlerGenerator"), "_raw_body_accessor")
+    types = [_strs(n.comparators[0], "python types") for n in ast.walk(fn) if isinstance(n, ast.Compare)
+             and isinstance(n.ops[0], ast.NotIn) and isinstance(n.left, ast.Name) and n.left.id == "python_type"]
+    if len(types) != 1:
+        raise TranslatorError("_raw_body_accessor: `python_type not in (...)` not found")
+    pre = [n.args[0] for n in ast.walk(fn) if isinstance(n, ast.Call) and isinstance(n.func, ast.Attribute) and n.func.attr == "startswith"]
+    text = [a.value for a in pre if isinstance(a, ast.Constant)]
+    binp = [_strs(a, "binary prefixes") for a in pre if isinstance(a, ast.Tuple)]
+    exact = [_strs(n.comparators[0], "binary media") for n in ast.walk(fn) if isinstance(n, ast.Compare) and isinstance(n.ops[0], ast.In)
+             and isinstance(n.left, ast.Name) and n.left.id == "ct"]
+    rets = sorted({n.value for n in ast.walk(fn) if isinstance(n, ast.Constant) and isinstance(n.value, str) and n.value.startswith("response.")})
+    neq = sorted({n.comparators[0].value for n in ast.walk(fn) if isinstance(n, ast.Compare) and isinstance(n.ops[0], ast.NotEq)
+                  and isinstance(n.comparators[0], ast.Constant)})
+    if text != ["text/"] or len(binp) != 1 or len(exact) != 1 or rets != ["response.content", "response.text"] or neq != ["bytes", "str"]:
+        raise TranslatorError(f"_raw_body_accessor changed shape: {text} {binp} {exact} {rets} {neq}")
+    smod = _parse("types/strategies/response_strategy.py")
+    sfn = _find_func(_find_class(smod, "ResponseStrategyResolver"), "_resolve_content_type_to_python_type")
+    sexact = [_strs(n.comparators[0], "x") for n in ast.walk(sfn) if isinstance(n, ast.Compare) and isinstance(n.ops[0], ast.In)
+              and isinstance(n.comparators[0], ast.List)]
+    spre = [_strs(n.args[0], "x") for n in ast.walk(sfn) if isinstance(n, ast.Call) and isinstance(n.func, ast.Attribute)
+            and n.func.attr == "startswith" and n.args and isinstance(n.args[0], ast.Tuple)]
+    if sexact != exact or spre != binp:
+        raise TranslatorError(f"binary media tables of _raw_body_accessor and the strategy resolver differ: {exact}{binp} vs {sexact}{spre}")
+    return ["(* response_handler_generator._raw_body_accessor *)", _clist("raw_body_types", types[0])]
+
+
 def render() -> str:
     lines = ["(* GENERATED by harness/tables_C05.py from the repository's src/ — do not edit *)",
              "From Coq Require Import List NArith.", "Import ListNotations.", "Open Scope N_scope.", ""]
-    for sec in (_handler_tables, _strategy_tables, _parser_tables, _ndjson_tables):
+    for sec in (_handler_tables, _strategy_tables, _parser_tables, _ndjson_tables, _raw_body_tables):
         lines += sec() + [""]
     return "\n".join(lines)
